@@ -9,10 +9,20 @@ def sh(cmd, timeout=3600):
     p = subprocess.run(cmd, shell=True, capture_output=True, text=True, timeout=timeout)
     return p.returncode, p.stdout + p.stderr
 
-names = sys.argv[1:] or sorted(os.listdir("/verif/seeded"))
-rc, o = sh("git -C /repo status --short | grep -v '^??' | head -1")
+names = [a for a in sys.argv[1:] if not a.startswith("--")] or sorted(os.listdir("/verif/seeded"))
+# default: in /repo itself (the documented way: git -C /repo apply, check, git -C /repo checkout -- .).
+# --scratch: in a throw-away worktree of /repo's HEAD with VERIF_REPO pointing at it, so that /repo stays free for other runs
+SCRATCH = "--scratch" in sys.argv
+TREE = "/repo"
+ENV = ""
+if SCRATCH:
+    TREE = "/tmp/repo_seed_%d" % os.getpid()
+    sh("git -C /repo worktree add --detach %s HEAD" % TREE)
+    sh("cp /repo/config.h /repo/config.status %s/" % TREE)
+    ENV = "VERIF_REPO=%s " % TREE
+rc, o = sh("git -C %s status --short | grep -v '^??' | head -1" % TREE)
 if o.strip():
-    print("refusing: /repo has uncommitted changes"); sys.exit(2)
+    print("refusing: %s has uncommitted changes" % TREE); sys.exit(2)
 missed = 0
 for name in names:
     d = os.path.join("/verif/seeded", name)
@@ -20,7 +30,7 @@ for name in names:
         continue
     ev = json.load(open(d + "/eval.json")) if os.path.exists(d + "/eval.json") else {"name": name}
     pid = ev.get("property") or json.load(open(d + "/meta.json"))["property"]
-    rc, o = sh("git -C /repo apply %s/patch.diff" % d)
+    rc, o = sh("git -C %s apply %s/patch.diff" % (TREE, d))
     if rc != 0:
         print(name, pid, "n/a(patch no longer applies)")
         ev["applies_to_repo_head"] = False
@@ -28,14 +38,16 @@ for name in names:
         continue
     try:
         t = time.time()
-        rc2, o2 = sh("cd /verif && ./check %s --tier quick" % pid)
+        rc2, o2 = sh("cd /verif && %s./check %s --tier quick" % (ENV, pid))
         viol = [l for l in o2.split("\n") if l.startswith("VIOLATION") or l.strip().startswith("what:")]
     finally:
-        sh("git -C /repo checkout -- .")
+        sh("git -C %s checkout -- ." % TREE)
     ev.setdefault("checks", {})[pid] = {"rc": rc2, "wall_s": round(time.time() - t), "violations": [v[:400] for v in viol[:6]], "rechecked": time.strftime("%F %T")}
     ev["applies_to_repo_head"] = True
     json.dump(ev, open(d + "/eval.json", "w"), indent=1)
     det = rc2 == 1 and viol
     missed += not det
     print(name, pid, "detected" if det else "MISSED (rc %d)" % rc2, flush=True)
+if SCRATCH:
+    sh("git -C /repo worktree remove --force %s" % TREE)
 sys.exit(1 if missed else 0)
